@@ -140,6 +140,11 @@ def check_conversation(ctx, dc, kind, sd, rk, ids, legs, inp):
     for p in e.pdus + k.pdus:
         if p["size"] != p["frag_len"]:
             bad("frag_len does not equal the PDU size", p["frag_len"], p["size"])
+    # the client writes one PDU at a time: every write is exactly frag_len octets long and nothing is left over on the connection
+    for c in conns:
+        if getattr(c, "writes", []) != [p["frag_len"] for p in c.pdus] or c.buf:
+            bad("a PDU's frag_len differs from the number of octets the client sent for it (or octets are left over)",
+                {"writes": getattr(c, "writes", []), "left_over": len(c.buf)}, {"frag_lens": [p["frag_len"] for p in c.pdus]})
     eb = e.pdus[0]
     if [(c[0], c[1][0], c[1][1], [t[0] for t in c[2]]) for c in eb["contexts"]] != [(0, refserver.EPM_UUID, (3, 0), [refserver.NDR64_UUID.bytes_le])] or eb.get("token") is not None:
         bad("endpoint-mapper bind is not (ctx 0, EPM v3, NDR64) without authentication", eb["contexts"], "ctx0 EPM v3 NDR64")
@@ -470,6 +475,11 @@ def replay(ctx, payload):
         if "kind" not in v:       # the shared-cache history
             shared_cache_history(c2, rec, c2.rng)
         else:
+            # (cases run in one process: state a connection may leave behind — e.g. a remembered signature size — is part of the input;
+            #  a call with ANOTHER signature size and leg count goes first)
+            c0 = type(ctx)(ctx.prop, "quick", ctx.seed)
+            one_case(c0, rec, v["kind"], tuple(v["position"]), tuple(v["now"]), v["sid"], tuple(v["names"]), 16 if v["header_len"] != 16 else 76, v["header_sign"], 2 if v["legs"] != 2 else 3, v["public"], [], False,
+                     reply_at_now=v.get("reply_at_now", False))
             one_case(c2, rec, v["kind"], tuple(v["position"]), tuple(v["now"]), v["sid"], tuple(v["names"]), v["header_len"], v["header_sign"], v["legs"], v["public"], [], False, reply_at_now=v.get("reply_at_now", False))
     finally:
         refserver.Connection.handle = orig
